@@ -273,6 +273,25 @@ def _rest(ck, fa, R3, R4, R5, R6):
     ck.ob(R5, om.key(pc, "side-car"), okm, "metadata is written to a side-car path, never the object path" if okm else
           "output_metadata writes to the object path itself", om.where(pc))
 
+    # ... for EVERY metadata key string: the object path (the one built without the metadata key)
+    # may be selected only by `metadata_key is None`, not by the key's truth value ('' is a key)
+    ck.rule("C07.R9", "the object path is selected only when no metadata key is given (`is None`), never by the truth value of the key string", 1)
+    mk_tests = []
+    for n in gp.cfg.nodes:
+        if n.kind == "test":
+            for a in A.test_atoms(n.ast):
+                if "metadata_key" in {x.id for x in ast.walk(a) if isinstance(x, ast.Name)}:
+                    mk_tests.append(a)
+    obj_paths = [r for r in gp.returns() if "param:metadata_key" not in gp.deps(r.value)]
+    none_tests = [a for a in mk_tests if isinstance(a, ast.Compare) and len(a.ops) == 1 and isinstance(a.ops[0], (ast.Is, ast.IsNot))
+                  and A.norm(a.comparators[0]) == "None" and A.norm(a.left) == "metadata_key"]
+    bad_t = [a for a in mk_tests if a not in none_tests]
+    ok9 = bool(obj_paths) and not bad_t and (bool(none_tests) or "metadata_key" not in gp.fi.params)
+    ck.ob("C07.R9", gp.key(None, "object-path-only-for-None"), ok9, "the object path is chosen by `metadata_key is None` (%d test(s))" % len(none_tests) if ok9 else
+          "`%s` decides between the object path and the side-car path: the empty metadata key '' is falsy, so "
+          "put_metadata('', value, store_with_data=True) opens the result object itself for writing and replaces its bytes"
+          % (A.short(bad_t[0], 40) if bad_t else "nothing"), gp.where(bad_t[0]) if bad_t else gp.where())
+
     # the memento's content key survives the metadata codec (split at the last '#')
     from .c11 import check_versioned_key_codec
     ck.rule("C07.R8", "a memento's versioned content key is written as key#version and split at the last '#'", 2)
